@@ -556,7 +556,7 @@ void Cello_Exit(void) {
 
 #endif
 
-#ifdef CELLO_VERIF
+#if defined(CELLO_VERIF) && !defined(CELLO_NGC)
 
 /* Read-only accessors for the verification harness (/verif). No behaviour change. */
 
